@@ -580,6 +580,12 @@ recompute_factor(cholmod_sparse *A, cholmod_factor *L, long *iPerm,
 
 		if ( Lp[Lnext[Lrows[i]]] - Lp[Lrows[i]] < nz ) {
 			cholmod_l_reallocate_column(Lrows[i], nz, L, c);
+			/*
+			 * Growing a column can move L->i and L->x to
+			 * a larger block.
+			 */
+			Li = (long*)(L->i);
+			Lx = (double*)(L->x);
 #if 0
 			printf("L->nz[%ld] <= %ld, L_F->nz[%d] = %ld\n", 
 		    	    Lrows[i], Lp[Lnext[Lrows[i]]] - Lp[Lrows[i]],
